@@ -160,3 +160,9 @@ def nontrivial(case, result):
         return int(toks[4][2:].lstrip("-") or "0", 16) % w != 0
     ls = [t for t in toks[3:] if t.startswith("L:")]
     return len(ls) >= 2 and result not in ls
+
+
+def prebuild(root):
+    """translator: regenerate coq/Generated/Glue.v from /repo/src (its C17 phase - the reference / assign / bnum-amount operator
+    forms, Sum / Product / Default - is proved equal to the model in Proofs/GlueTieC17.v)"""
+    return run_translator(root, "rs2v_glue.py", "C17")
